@@ -5,6 +5,7 @@ package biscuit
 import (
 	"crypto/ed25519"
 	"errors"
+	"io"
 
 	"github.com/biscuit-auth/biscuit-go/v2/datalog"
 )
@@ -18,11 +19,13 @@ type vFailReader struct {
 	chunk   int
 	n       int
 	got     []byte
+	fail    error // what the source reports when it is dry
+	final   bool  // deliver the last chunk together with the error (allowed by io.Reader)
 }
 
 func (r *vFailReader) Read(p []byte) (int, error) {
 	if r.deliver >= 0 && r.n >= r.deliver {
-		return 0, vErrEntropy
+		return 0, r.fail
 	}
 	k := len(p)
 	if r.chunk > 0 && k > r.chunk {
@@ -37,6 +40,9 @@ func (r *vFailReader) Read(p []byte) (int, error) {
 		r.got = append(r.got, b)
 	}
 	r.n += k
+	if r.final && r.deliver >= 0 && r.n >= r.deliver {
+		return k, r.fail
+	}
 	return k, nil
 }
 
@@ -71,7 +77,8 @@ func VerifC20Entropy() {
 	if k == 33 {
 		deliver = -1
 	}
-	rng := &vFailReader{deliver: deliver, chunk: chunk}
+	fail := [...]error{vErrEntropy, io.EOF, io.ErrUnexpectedEOF}[vChoose("error-kind", 3)]
+	rng := &vFailReader{deliver: deliver, chunk: chunk, fail: fail, final: vChoose("error-with-last-chunk", 2) == 1}
 	fails := k < 32
 
 	var tok *Biscuit
